@@ -459,39 +459,46 @@ def _r3(chk, repo):
     chk.add("C10-R3", f"{d.qual}.step", ok, site(repo, st), "current_point = target.sample()", f"Direct.step does {eff}", st)
 
 
-def _gamma_update(fn, count_expr) -> List[str]:
-    """Gamma(shape = m/2 + alpha, rate = ||L(Ax - b)||^2/2 + beta), matched modulo renaming of the locals"""
-    from ..pattern import statements, unify
-    S = statements(fn)
+def _gamma_update(repo, ci, fn, counts) -> List[str]:
+    """the value returned is one draw of Gamma(shape = m/2 + alpha, rate = ||L(Ax - b)||^2/2 + beta) with every quantity read from the target's likelihood
+    and prior: decided on the CLOSED FORM of the returned expression (locals replaced by their definitions), so that neither the names of the locals nor
+    how the target's parts are held in them matter"""
+    from ..flow import Expander, clone as clone_
+    from ..pattern import norm as pn
+    from ..canon import _SymOrder
+    from .common import canon_fn, expected_text
+    v = canon_fn(repo, ci, fn, 1)
+    ex = Expander(v)
+    rets = [r for r in ex.cfg.returns() if r.ast.value is not None]
+    if len(rets) != 1:
+        return [f"{len(rets)} value returns: the update is not one draw"]
+    got = ex.expand(rets[0].ast.value, rets[0])
+
+    def nt(e):
+        return pn(_SymOrder().visit(clone_(e)))
+    LK = "self.target.likelihood"
+    UNIT = f"{LK}.distribution(np.array([1]))"
+    B, AX, LL, AL, BE = f"{LK}.data", f"{LK}.distribution.mean", f"{UNIT}.sqrtprec", "self.target.prior.shape", "self.target.prior.rate"
+    cnts = [c.replace("$U", UNIT).replace("(b)", f"({B})") for c in counts]
+    shapes = {expected_text(f"{c}/2+{AL}") for c in cnts}
+    rate = expected_text(f"0.5*np.linalg.norm({LL}@({AX}-{B}))**2+{BE}")
+    if not (isinstance(got, ast.Call) and isinstance(got.func, ast.Attribute) and got.func.attr == "sample" and not got.args and not got.keywords
+            and isinstance(got.func.value, ast.Call) and (call_name(got.func.value) or "").rsplit(".", 1)[-1] == "Gamma"):
+        return [f"update is `{unparse(got)[:160]}`, not Gamma(shape=m/2+alpha, rate=0.5*||L(Ax-b)||^2+beta) drawn once"]
+    gc = got.func.value
+    kw = {k.arg: k.value for k in gc.keywords if k.arg}
+    for nm, a in zip(("shape", "rate"), gc.args):
+        kw.setdefault(nm, a)
     problems = []
-    UNIT = "self.target.likelihood.distribution(np.array([1]))"
-    core = ["$b=self.target.likelihood.data", "$Ax=self.target.likelihood.distribution.mean",
-            f"$L={UNIT}.sqrtprec", "$al=self.target.prior.shape", "$be=self.target.prior.rate"]
-    bnd, fail = unify(core, S)
-    if bnd is None:      # same quantities with the unit-parameter Gaussian held in a local
-        core = ["$b=self.target.likelihood.data", f"$U={UNIT}", "$Ax=self.target.likelihood.distribution.mean",
-                "$L=$U.sqrtprec", "$al=self.target.prior.shape", "$be=self.target.prior.rate"]
-        bnd, fail = unify(core, S)
-    if bnd is None:
-        return [f"`{core[fail]}` not found: data, mean, unit-parameter sqrt-precision and Gamma shape/rate must come from the target's likelihood and prior"]
-    mb = None
-    for ce in count_expr:
-        if "$U" in ce and "U" not in bnd:
-            ce = ce.replace("$U", UNIT)
-        mb, _ = unify(["$m=" + ce.replace("b)", "$b)")], S, bnd)
-        if mb is not None:
-            break
-    if mb is None:
-        shown = [t for t, a in S if "len(" in t or "count_nonzero" in t or ".rank" in t or "_rank" in t]
-        problems.append(f"the count entering the Gamma shape is `{shown[0] if shown else '?'}`: it must be {' or '.join(count_expr)} "
+    if set(kw) != {"shape", "rate"} or len(gc.args) + len(gc.keywords) != 2:
+        return [f"update is `{unparse(gc)[:160]}`: the Gamma is not given exactly a shape and a rate"]
+    if nt(kw["shape"]) not in shapes:
+        problems.append(f"the Gamma shape is `{unparse(kw['shape'])[:200]}`: it must be ({' or '.join(cnts)})/2 + the prior's shape "
                         f"(the exponent of the hyper-parameter in the likelihood's density is rank/2; a vector length may differ from it: a scalar mean is "
                         f"stored with length 1, an improper GMRF has rank dim-1)")
-        mb = dict(bnd)
-        mb["m"] = shown[0].split("=")[0] if shown else "m"
-    db, _ = unify(["$dist=Gamma(shape=$m/2+$al,rate=0.5*np.linalg.norm($L@($Ax-$b))**2+$be)", "return $dist.sample()"], S, mb)
-    if db is None:
-        shown = [t for t, a in S if "Gamma(" in t]
-        problems.append(f"update is `{shown[0] if shown else '?'}`, not Gamma(shape=m/2+alpha, rate=0.5*||L(Ax-b)||^2+beta) drawn once")
+    if nt(kw["rate"]) != rate:
+        problems.append(f"the Gamma rate is `{unparse(kw['rate'])[:240]}`, not 0.5*||L(Ax-b)||^2 + the prior's rate with data, mean and unit-parameter "
+                        f"sqrt-precision read from the target's likelihood")
     return problems
 
 
@@ -499,12 +506,13 @@ def _r4(chk, repo):
     for pair, cnt in (("_GaussianGammaPair", ("$U.rank",)), ("_RegularizedGaussianGammaPair", ("np.count_nonzero(b)",))):
         ci = repo.cls(f"{EXP}:{pair}")
         f = repo.method(ci, "sample")[1]
-        pr = _gamma_update(f, cnt)
+        pr = _gamma_update(repo, ci, f, cnt)
         chk.add("C10-R4", f"{ci.qual}.sample", not pr, site(repo, f), "Gamma(m/2+alpha, ||L(Ax-b)||^2/2+beta), m = rank of the unit-parameter Gaussian (non-zero data entries for the regularized pair)", "; ".join(pr), f)
     leg = repo.cls(f"{LEG}:Conjugate")
     f = repo.method(leg, "step")[1]
-    pr = _gamma_update(f, ("self._calc_m_for_Gaussians(b)",))
-    cm = repo.method(leg, "_calc_m_for_Gaussians")[1]
+    pr = _gamma_update(repo, leg, f, ("self._calc_m_for_Gaussians(b)",))
+    from .common import canon_fn
+    cm = canon_fn(repo, leg, repo.method(leg, "_calc_m_for_Gaussians")[1], 3)        # a local naming the likelihood's distribution read through
     rets = [_norm(n.value) for n in ast.walk(cm) if isinstance(n, ast.Return)]
     if rets != ["self.target.likelihood.distribution(np.array([1])).rank", "np.count_nonzero(b)"]:
         pr.append(f"_calc_m_for_Gaussians returns {rets}")
